@@ -6,17 +6,19 @@ import glob, json, os, re, shutil, subprocess, sys, time
 V = os.path.dirname(os.path.dirname(os.path.abspath(__file__)))
 REPO = os.environ.get("VERIF_REPO", "/repo")   # a lane: its own copy of /verif and its own worktree of /repo
 os.chdir(V)
-for d in sorted(glob.glob("/tmp/ben/out/C*/b*.diff")) + sorted(glob.glob("/tmp/ben/out2/C*/b*.diff")):
+for d in sorted(glob.glob("/tmp/ben/out/C*/b*.diff")) + sorted(glob.glob("/tmp/ben/out2/C*/b*.diff")) + sorted(glob.glob("/tmp/ben/out3/C*/b*.diff")):
     pid = d.split("/")[-2]; k = os.path.basename(d)[:-5]
     if "/out2/" in d:
         k = "c" + k[1:]               # second round: <id>-c<k>
+    if "/out3/" in d:
+        k = "d" + k[1:]               # third round: <id>-d<k>
     dst = os.path.join(V, "benign", "%s-%s" % (pid, k))
     if not os.path.exists(dst):
         os.makedirs(dst)
         shutil.copy(d, dst + "/patch.diff")
         if os.path.exists(d[:-5] + ".txt"):
             shutil.copy(d[:-5] + ".txt", dst + "/note.txt")
-names = sys.argv[1:] or sorted(os.path.basename(p) for p in glob.glob("benign/C*-[bc]*"))
+names = sys.argv[1:] or sorted(os.path.basename(p) for p in glob.glob("benign/C*-[bcd]*"))
 def clean():
     subprocess.run(["git", "-C", REPO, "checkout", "--", "."], check=True)
     subprocess.run(["git", "-C", REPO, "clean", "-fdq", "--", "pkg", "internal"], check=True)
@@ -51,7 +53,7 @@ for n in names:
               open(d + ("/result_%s.json" % cross if cross else "/result.json"), "w"), indent=1)
     print(rows[-1], flush=True)
 allr = []
-for p in sorted(glob.glob("benign/C*-[bc]*/result*.json")):
+for p in sorted(glob.glob("benign/C*-[bcd]*/result*.json")):
     allr.append(json.load(open(p)))
 with open("benign/RESULTS.md", "w") as f:
     f.write("# Property-preserving changes vs. checks (quick tier)\n\nExpected: quiet.  `wb skipped` = the white-box driver part no longer compiled and was left out.\n\n| change | property | outcome | white-box part skipped |\n|---|---|---|---|\n")
